@@ -190,6 +190,20 @@ CHECKS = {
              "lenient never raises on well-formed current odML, strict-raises implies lenient-warns, untouched seed objects "
              "survive, every returned Document satisfies the C03/C04 invariants.",
         design="DESIGN.md C16"),
+    "C17": dict(
+        engine="fault",
+        category="fault_enumeration",
+        technique="exhaustive enumeration of sequences of file kinds (valid and faulty) x placement x options x tool; directory tree "
+                  "compared byte for byte before and after, outputs loaded and compared with a reference conversion",
+        text="Every sequence of <=2 out of 24 file kinds (valid 1.0/1.1 in XML/JSON/YAML with .xml and .odml, and empty / plain text / "
+             "malformed XML / XML of another vocabulary under each of .xml .odml .json .yaml) x all placements (top / sub-directory) "
+             "x -r x implicit / explicit output, and every sequence of 3 (thorough: 4 with one bad file) out of 10 core kinds, for "
+             "odmlconvert and odmltordf; FormatConverter.convert_dir over sequences of <=2 kinds x 12 target formats. Input bytes "
+             "and listing unchanged, everything created inside a new directory at the expected place, the command line tools "
+             "return whatever the mixture, every convertible file in scope has an output that loads (XML reader / plain rdflib) "
+             "and carries the content of its source (reference 1.0->1.1 mapping), every bad file is reported with an error and "
+             "has no output.",
+        design="DESIGN.md C17"),
     "C18": dict(
         engine="schedule",
         category="model_checking",
